@@ -87,6 +87,7 @@ def worker(args):
             if it == 0: part.sample({"part": "go-to", "text": text[:300], "identifiers": len(feat.idents(P))}, 1)
         except (ServerDied, Timeout, FrameError) as e:
             feat.died(part, e, "go-to request", {"kind": "doc", "text": text}, sess)
+    feat.report(part)
     sess.kill()
     return part
 
